@@ -13,14 +13,14 @@ package jsonrpc
 //@ property C03 units: websocketClient$3, (*client).setupRequestChan, (*deadlineResetReader).Read, (*wsConn).resetReadDeadline, (*wsConn).handleWsConn, (*wsConn).tryReconnect, (*wsConn).tryReconnect$1, (*wsConn).closeInFlight, (*wsConn).nextMessage, (*wsConn).readFrame, (*client).setupRequestChan$1, (*wsConn).sendRequest, (*wsConn).handleResponse, websocketClient
 //@ property C02 units: (*rpcFunc).handleRpcCall, normalizeID, (*client).makeRpcFunc, (*client).setupRequestChan$1, httpClient$1, NewCustomClient$1, (*wsConn).handleWsConn, (*wsConn).handleResponse, (*wsConn).closeInFlight, (*wsConn).frameExecutor, (*wsConn).handleFrame, (*wsConn).handleCall, (*handler).handle, rpcError$1
 //@ property C04 units: (*rpcFunc).handleRpcCall, (*client).makeRpcFunc, (*client).provide, httpClient$1, (*wsConn).handleWsConn, (*wsConn).frameExecutor, (*wsConn).handleFrame, (*wsConn).handleCall, (*handler).handle, (*wsConn).closeInFlight, (*wsConn).closeChans, (*wsConn).tryReconnect, (*wsConn).tryReconnect$1
-//@ property C06 units: (*client).setupRequestChan$1, (*wsConn).handleCtxAsync, (*wsConn).handleResponse, (*wsConn).cancelCtx, (*wsConn).handleCall, (*wsConn).handleCall$2, (*wsConn).handleCall$3, (*handler).handle, (*wsConn).closeInFlight, (*RPCServer).ServeHTTP, (*handler).handleReader, httpClient$1, (*wsConn).handleFrame
+//@ property C06 units: (*client).setupRequestChan$1, (*wsConn).handleCtxAsync, (*wsConn).handleResponse, (*wsConn).cancelCtx, (*wsConn).handleCall, (*wsConn).handleCall$2, (*wsConn).handleCall$3, (*handler).handle, (*wsConn).closeInFlight, (*RPCServer).ServeHTTP, (*handler).handleReader, httpClient$1, (*wsConn).handleFrame, (*rpcFunc).handleRpcCall
 //@ property C15 units: (*handler).handleReader$1, (*wsConn).handleCall$1, (*lazyWriter).Write$1, websocketClient$2$1, (*RPCServer).handleWS$1, (*wsConn).handleWsConn, (*wsConn).handleCall, (*wsConn).closeInFlight, (*wsConn).nextWriter, (*wsConn).readFrame, (*wsConn).frameExecutor, (*client).sendRequest, (*client).setupRequestChan$1, (*wsConn).handleOutChans, (*wsConn).handleChanOut, withLazyWriter, (*lazyWriter).Write, (*lazyWriter).Write$1$1, (*RPCServer).handleWS
 //@ property C16 units: WithClientHandler$1, websocketClient$2$1, WithReverseClient$1$1, ExtractReverseClient, (*RPCServer).handleWS, (*RPCServer).ServeHTTP, (*client).setupRequestChan$1, (*wsConn).handleChanOut, websocketClient, WithClientHandlerAlias$1, (*wsConn).closeInFlight, (*wsConn).handleWsConn, (*wsConn).handleCall, (*handler).handle
 //@ property C07 units: (*client).makeOutChan$1, (*client).setupRequestChan, (*wsConn).handleOutChans, (*wsConn).handleOutChans$1, (*wsConn).handleChanOut, (*handler).handle, (*wsConn).handleResponse, (*wsConn).handleChanMessage, (*client).makeOutChan$1$1, (*client).makeOutChan$1$2, (*wsConn).handleFrame, (*param).MarshalJSON, (*param).UnmarshalJSON
-//@ property C08 units: (*client).makeOutChan$1, (*wsConn).setupPings$5$1, (*wsConn).handleChanOut, (*wsConn).handleOutChans, (*wsConn).handleChanClose, (*wsConn).closeChans, (*wsConn).handleChanMessage, (*wsConn).tryReconnect, (*wsConn).handleWsConn, (*client).makeOutChan$1$1, (*client).makeOutChan$1$2, (*wsConn).handleResponse
+//@ property C08 units: (*client).makeOutChan$1, (*wsConn).setupPings$5$1, (*wsConn).handleChanOut, (*wsConn).handleOutChans, (*wsConn).handleChanClose, (*wsConn).closeChans, (*wsConn).handleChanMessage, (*wsConn).tryReconnect, (*wsConn).handleWsConn, (*client).makeOutChan$1$1, (*client).makeOutChan$1$2, (*wsConn).handleResponse, (*wsConn).resetReadDeadline
 //@ property C11 units: (*ErrClient).Error, (*ErrClient).Unwrap, WithErrors$1, WithServerErrors$1, (*client).setupRequestChan$1, (*handler).createError, (*Errors).Register, NewErrors, (*JSONRPCError).val, (*JSONRPCError).Error, (*rpcFunc).processResponse, (*rpcFunc).processError, (*handler).handle, (response).MarshalJSON, processFuncOut, (*wsConn).handleResponse, NewCustomClient
 //@ property C01 units: WithParamEncoder$1, WithParamDecoder$1, DecodeParams, NewCustomClient, httpClient, (*deadlineResetReader).Read, defaultConfig, defaultServerConfig, processFuncOut, (*param).MarshalJSON, (*param).UnmarshalJSON, (*client).makeRpcFunc, (*client).provide, (*rpcFunc).handleRpcCall, (*rpcFunc).processResponse, (*rpcFunc).processError, (*client).sendRequest, NewCustomClient$1, httpClient$1, (*client).setupRequestChan$1, (*handler).register, (*handler).handle, doCall, (response).MarshalJSON, (*wsConn).handleResponse, (*wsConn).handleCall, NewMethodNameFormatter$1, (*RPCServer).AliasMethod
-//@ property C13 units: doCall, (*handler).handle, rpcError$1
+//@ property C13 units: doCall, (*handler).handle, rpcError$1, httpClient$1
 
 //@ -- ------------------------------------------------------------------ shared vocabulary
 //@ pred idok(x) := typeof(x) == #string || typeof(x) == #float64 || x == nil
@@ -70,6 +70,7 @@ package jsonrpc
 //@ core C09 C12: (*handler).handle, (*handler).handleReader, rpcError, rpcError$1, doCall
 //@ core C14: normalizeID
 //@ core C01 C02 C04 C05 C11 C16: (*rpcFunc).handleRpcCall, (*client).makeRpcFunc, (*rpcFunc).processResponse, (*rpcFunc).processError, (*client).sendRequest, processFuncOut, (*JSONRPCError).val, (*handler).createError
+//@ core C10: doCall
 //@ core C04 C09 C10 C13 C15: (*wsConn).handleCall, (*wsConn).handleCall$2, (*wsConn).handleCall$3, (*wsConn).readFrame, (*wsConn).frameExecutor
 //@ -- module-wide rules (global ...) of these properties are checked in EVERY function of the module, not only in the
 //@ -- units listed above: code added anywhere (a new helper, a new goroutine body, a callback) is held to them too
@@ -93,6 +94,16 @@ package jsonrpc
 //@ global-forbid at call (*github.com/gorilla/websocket.Conn).CloseHandler: assert control-frames-are-not-written-through-handler-getters: false [C14,C15]
 //@ global-forbid at call (*github.com/gorilla/websocket.Conn).PingHandler: assert control-frames-are-not-written-through-handler-getters: false [C14,C15]
 //@ global-forbid at call (*github.com/gorilla/websocket.Conn).PongHandler: assert control-frames-are-not-written-through-handler-getters: false [C14,C15]
+//@ global-forbid at store github.com/gorilla/websocket.Dialer.Proxy: assert connections-are-dialled-with-the-default-dialer-and-its-handshake-timeout: false [C03,C05]
+//@ global-forbid at store github.com/gorilla/websocket.Dialer.ReadBufferSize: assert connections-are-dialled-with-the-default-dialer-and-its-handshake-timeout: false [C03,C05]
+//@ global-forbid at store github.com/gorilla/websocket.Dialer.WriteBufferSize: assert connections-are-dialled-with-the-default-dialer-and-its-handshake-timeout: false [C03,C05]
+//@ global-forbid at store github.com/gorilla/websocket.Dialer.HandshakeTimeout: assert connections-are-dialled-with-the-default-dialer-and-its-handshake-timeout: false [C03,C05]
+//@ global-forbid at store github.com/gorilla/websocket.Dialer.NetDial: assert connections-are-dialled-with-the-default-dialer-and-its-handshake-timeout: false [C03,C05]
+//@ global-forbid at store github.com/gorilla/websocket.Dialer.NetDialContext: assert connections-are-dialled-with-the-default-dialer-and-its-handshake-timeout: false [C03,C05]
+//@ global-forbid at call errors.Is: assert the-raw-panic-payloads-methods-run-only-under-fmts-own-guard: !infunc("doCall$1") [C13,C10]
+//@ global-forbid at call errors.As: assert the-raw-panic-payloads-methods-run-only-under-fmts-own-guard: !infunc("doCall$1") [C13,C10]
+//@ global-forbid at call errors.Unwrap: assert the-raw-panic-payloads-methods-run-only-under-fmts-own-guard: !infunc("doCall$1") [C13,C10]
+//@ global-forbid at lock wsConn.writeLk: assert the-server-releases-the-socket-without-queueing-behind-writers: !infunc("(*RPCServer).handleWS") [C15]
 //@ global at call (reflect.Value).Call: assert user-code-runs-only-under-the-panic-guard: infunc("doCall|auth.PermissionedProxy$1") [C13,C04]
 //@ global-forbid at call (*github.com/gorilla/websocket.Conn).WriteControl: assert control-frames-also-under-writeLk: heldclass("wsConn.writeLk") [C14,C15,C09]
 //@ global-forbid at call (*github.com/gorilla/websocket.Conn).SetWriteDeadline: assert no-sticky-write-deadline-shared-by-all-writers: false [C14,C09,C03,C15]
@@ -141,7 +152,7 @@ package jsonrpc
 //@ func (*wsConn).setupPings
 
 //@ func (*wsConn).resetReadDeadline
-//@   ensures deadline-renewed-whenever-a-timeout-is-configured: c.timeout > 0 ==> calls(SetReadDeadline) == 1 [C03]
+//@   ensures deadline-renewed-whenever-a-timeout-is-configured: c.timeout > 0 ==> calls(SetReadDeadline) == 1 [C03,C08]
 
 //@ func (*wsConn).handleWsConn
 //@   initphase
@@ -177,6 +188,7 @@ package jsonrpc
 //@   at ret sendRequest: set sendErr = $result0
 //@   ensures keepalive-stopped-when-the-loop-ends: calls(stopPings) >= 1 [C15]
 //@   at call (*wsConn).resetReadDeadline: assert deadline-extended-only-by-a-pong: action == "pong" [C03]
+//@   at recv timeoutTimer.C: assert the-inactivity-timer-is-drained-without-waiting: !$blocking [C05,C03]
 //@   loop 1 invariant reader-channel: c.incoming != nil && chancap(c.incoming) == 0 [C03,C10]
 //@   ensures exits-only-for-a-cause: branch == 1 || branch == 2 || ((branch == 3 || branch == 4) && reconnectFailed) || (branch == 3 && err == nil) || (branch == 5 && c.connFactory == nil) [C03,C05]
 //@   at store wsConn.readError: assert read-failure-report-never-blocks-a-dead-loop: chancap($val) >= 1 [C15,C03]
@@ -709,6 +721,7 @@ package jsonrpc
 //@   ensures gives-up-only-when-client-exits-or-cancel-cannot-be-encoded: result1 != nil ==> exitBeforeEnqueue || mErr [C11,C02,C03]
 
 //@ func (*rpcFunc).handleRpcCall
+//@   at call sync/atomic.AddInt64: assert request-ids-come-from-the-connection-wide-counter: fieldof($0) == "client.idCtr" [C02,C06,C16]
 //@   may_panic
 //@   requires wfRpcFunc(fn) && len(args) >= fn.hasCtx && fn.client.doRequest != nil
 //@   ghost lastCode : Int = 0
@@ -748,6 +761,12 @@ package jsonrpc
 //@   at call net/http.NewRequest: assert sent-as-post: $0 == "POST" [C04]
 //@   at store net/http.Request.Header: assert sends-the-configured-headers: calls(Clone) == 1 [C01]
 //@   ensures one-http-exchange: calls(Do) <= 1 [C04]
+//@   ghost doErr : U = nil
+//@   ghost didDo : Bool = false
+//@   at ret (*net/http.Client).Do: set doErr = $result1
+//@   at ret (*net/http.Client).Do: set didDo = true
+//@   at ret (*net/http.Client).Do: let hresp = $result0
+//@   ensures every-json-rpc-reply-is-decoded-whatever-its-length: didDo && doErr == nil && old(cr.req.ID) != nil && !(hresp.StatusCode > 400 && hresp.StatusCode != 500) ==> calls(Decode) == 1 [C13,C11,C01,C09]
 //@   ensures answer-carries-request-id: result1 == nil && cr.req.ID != nil ==> result0.ID == cr.req.ID [C02]
 
 //@ func NewCustomClient$1
